@@ -363,6 +363,10 @@ class VariableBoundVisitor(ModelVisitor):
         # This only exists until we flatten out array references
         pass
                 
+    def visit_expr_indexed_dynref(self, e):
+        # The root of the reference designates an object, not a value
+        pass
+                
     def visit_expr_fieldref(self, e):
         if self.phase == 0:
             # Collect fields that may just be referenced
